@@ -721,6 +721,34 @@ def _re_call(fr, name: str, pattern: Any, args: list, kwargs: dict, node) -> Any
     if name in ("match", "search", "fullmatch"):
         m = getattr(comp, name)(conc(rest[0]))
         return None if m is None else SObj("re.Match", {"_m": m}, methods=("group", "start", "end", "span", "groups", "groupdict"))
+    if name == "sub" and isinstance(rest[0], SStr) and not rest[0].is_concrete() and isinstance(rest[1], (str, SStr)) and (isinstance(rest[1], str) or rest[1].is_concrete()):
+        # symbolic replacement text in a concrete subject: re.sub reads the replacement as a *template*
+        # (backslash escapes and group references are processed), so a piece that may hold a backslash does
+        # not arrive as it is - it becomes another, opaque text
+        subject = conc(rest[1])
+        count = int(kwargs.get("count", rest[2] if len(rest) > 2 else 0) or 0)
+        tpl: list = []
+        for pc in rest[0].pieces:
+            if isinstance(pc, str):
+                if "\\" in pc:
+                    raise AnalysisError("re.sub with a backslash in the literal part of a symbolic replacement")
+                tpl.append(pc)
+            elif isinstance(pc, av.Atom) and "\\" in pc.excludes:
+                tpl.append(pc)
+            elif isinstance(pc, av.Atom):
+                tpl.append(pc.with_op("re_template"))
+            else:
+                raise AnalysisError("re.sub with a repeated symbolic replacement")
+        out_p: list = []
+        prev = 0
+        for i, m in enumerate(comp.finditer(subject)):
+            if count and i >= count:
+                break
+            out_p.append(subject[prev : m.start()])
+            out_p.extend(tpl)
+            prev = m.end()
+        out_p.append(subject[prev:])
+        return pai._simplify(SStr([x for x in out_p if x != ""]))
     if name in ("sub", "subn"):
         repl = rest[0]
         if isinstance(repl, (str, SStr)):
